@@ -1,4 +1,5 @@
 import Srctools.Proofs.C03Next
+import Srctools.Proofs.C03Steps
 import Srctools.Gen.Tok
 /-!
 # C03 — tokenizing is total and independent of how the input is chunked
@@ -74,8 +75,8 @@ theorem C03_total_A_run (T : Tables) (hT : opsOK T = true) (o : Opts) (fold : Ch
 /-- Concrete `_get_token`: with fuel exceeding the characters left, no loop of the chunked
 tokenizer runs out of fuel. -/
 theorem C03_total_C_token (T : Tables) (hT : opsOK T = true) (o : Opts) (fold : Char → List Char)
-    (fuel : Nat) (cst : CSt) (h : cst.src.Inv) (hf : cst.src.view.length < fuel) (l : Nat) :
-    nextToken T o fold fuel cst ≠ .err .outOfFuel l := by
+    (fuel : Nat) (cst : CSt) (h : cst.src.Inv) (hf : cst.src.view.length < fuel) (l : Nat)
+    (s : Src) : nextToken T o fold fuel cst ≠ .err .outOfFuel l s := by
   intro heq
   have hr := nextToken_refine T o fold fuel cst h hf
   have hg := nextToken_good T hT o fold fuel cst.abs cst.src.view hf
@@ -187,6 +188,37 @@ theorem C03_next_char (s : Src) (h : -1 ≤ s.idx) :
     s.next.1 = s.view.head? ∧ s.next.2.view = s.view.tail ∧ -1 ≤ s.next.2.idx :=
   next_view s h
 
+/-! ## Linear number of steps -/
+
+/-- One `_get_token`, from any cursor with index `≥ -1` and any fuel: a token other than EOF does
+not raise the potential `calls + 2·(characters left)`, EOF raises it by at most one, and an error is
+raised after at most `potential + 1` calls of `_next_char`. (Each character is read at most twice:
+once, and once more after the single push-back that may follow it.) -/
+theorem C03_steps_token (T : Tables) (o : Opts) (fold : Char → List Char) (fuel : Nat) (cst : CSt)
+    (h : cst.src.Inv) : PotRes cst (nextToken T o fold fuel cst) :=
+  nextToken_pot T o fold fuel cst h
+
+/-- **Step bound for the whole run**, for every chunking and option set: up to and including the
+call that returns EOF or raises, `_next_char` is called at most `2·n + 1` times, `n` the length of
+the text (empty chunks cost nothing: they are skipped inside one call). -/
+theorem C03_steps (T : Tables) (o : Opts) (fold : Char → List Char) (cs : List (List Char)) :
+    runCalls T o fold (Src.ofChunks cs) ≤ 2 * cs.flatten.length + 1 := by
+  have := runCallsAux_le T o fold ((Src.ofChunks cs).view.length + 2) { src := Src.ofChunks cs }
+    (inv_ofChunks cs)
+  have hc : (Src.ofChunks cs).calls = 0 := rfl
+  simp only [Src.pot, hc, view_ofChunks] at this
+  simp only [runCalls, view_ofChunks]
+  omega
+
+theorem C03_steps_string (T : Tables) (o : Opts) (fold : Char → List Char) (t : List Char) :
+    runCalls T o fold (Src.ofString t) ≤ 2 * t.length + 1 := by
+  have := runCallsAux_le T o fold ((Src.ofString t).view.length + 2) { src := Src.ofString t }
+    (inv_ofString t)
+  have hc : (Src.ofString t).calls = 0 := rfl
+  simp only [Src.pot, hc, view_ofString] at this
+  simp only [runCalls, view_ofString]
+  omega
+
 /-! ## The theorems at the tables of the current source -/
 
 theorem C03_chunk_indep_current (o : Opts) (fold : Char → List Char) (cs : List (List Char)) :
@@ -214,6 +246,12 @@ example : run Gen.Tok.tables C03_sampleOpts (fun c => [c.toLower]) (Src.ofChunks
 
 example : run Gen.Tok.tables {} (fun c => [c]) (Src.ofChunks [['"', 'a'], ['\r'], ['\n', 'b']])
     = { toks := [], err := some (.untermString, 2) } := by decide +kernel
+
+/-- the bound `2n+1` is attained: `a //` costs 2·4+... calls -/
+example : runCalls Gen.Tok.tables {} (fun c => [c]) (Src.ofChunks [['a', ' '], ['/', '/']]) = 7 := by
+  decide +kernel
+
+example : runCalls Gen.Tok.tables {} (fun c => [c]) (Src.ofChunks [['a']]) = 3 := by decide +kernel
 
 example : (Src.next { cur := ['a', 'b'], idx := -2, rest := [] }).1 = some 'b' := by decide +kernel
 
